@@ -292,7 +292,7 @@ fn replay_inner(path: &str) -> i32 {
         Ok(s) => println!("executed {} tasks, {} decisions, event-log fingerprint {:016x}", rf.plan.tasks.len(), s.trace.len(), s.log_hash),
         Err(d) => println!("the forked host process did not survive: {d}"),
     }
-    let violations = oracle::violations_of(&res);
+    let violations = oracle::violations_of(&rf.plan, &mut refs, &res);
     let hit = match &rf.expected {
         Some(e) => violations.iter().find(|v| v.matches_expected(e)),
         None => violations.first(),
